@@ -252,3 +252,18 @@ Check D04_history : forall mac c st0 xs st k m,
   s_store st0 = [] -> reach mac c st0 xs = Some st ->
   store_lookup k (s_store st) = Some m -> exists x, In x xs /\ fetched_in x k m.
 Print Assumptions D04_history.
+
+(* D07 -- over TCP nothing is ever dropped on purpose (the REFUSED limiter applies to UDP only): every
+   query that decodes gets a reply.  (C07's "every well-formed query from a permitted client receives
+   exactly one response", for the transport on which the model has no latitude; predicate 7 of the D01
+   check evaluates it on what the implementation did.) *)
+Theorem D07_tcp_always_answered : forall mac c st t_ns t_ins t_s client port local b u id eo st' out qs q,
+  decode b = Ok q ->
+  dns_step mac c st t_ns t_ins t_s client port local true b u id eo = Ok (st', out, qs) ->
+  exists bytes, out = Some bytes.
+Proof. exact tcp_always_answered. Qed.
+Check D07_tcp_always_answered : forall mac c st t_ns t_ins t_s client port local b u id eo st' out qs q,
+  decode b = Ok q ->
+  dns_step mac c st t_ns t_ins t_s client port local true b u id eo = Ok (st', out, qs) ->
+  exists bytes, out = Some bytes.
+Print Assumptions D07_tcp_always_answered.
